@@ -737,8 +737,14 @@ func c17BcExec(in c17Input, rec *c17Rec) {
 	announce := func() {
 		env.recv(hostile, c17BcWrap(&bcproto.StatusResponse{Base: 1, Height: ann}))
 		for dl := time.Now().Add(500 * time.Millisecond); time.Now().Before(dl); time.Sleep(time.Millisecond) {
-			rq := c17BcRequested(hostile)
-			if rq[want] && rq[want+1] {
+			// every requester of the announced range must have settled on the peer (a requester that
+			// is between pickIncrAvailablePeer and `bpr.peerID = peer.id` when the peer is removed is
+			// missed by removePeer's redo and then waits requestRetrySeconds = 30 s: a stall, not a wedge)
+			rq, all := c17BcRequested(hostile), true
+			for h := want; h <= ann; h++ {
+				all = all && rq[h]
+			}
+			if all {
 				return
 			}
 		}
@@ -794,10 +800,15 @@ func c17BcExec(in c17Input, rec *c17Rec) {
 	}
 	rec.Stopped = !hostile.IsRunning()
 	rec.Note += fmt.Sprintf(" store-height=%d->%d", h0, env.node.store.Height())
+	if done {
+		// poolRoutine finishes its iteration (after StopPeerForError(first's peer) it still calls
+		// RedoRequest(second.Height), which punishes whoever holds that request by then)
+		time.Sleep(15 * time.Millisecond)
+	}
 
 	alive := false
 	if !rec.Stuck {
-		ok, ppan, ppv := c17Timed(5*time.Second, func() {
+		ok, ppan, ppv := c17Timed(14*time.Second, func() {
 			asker := c17NewPeer(5, false)
 			env.toSwitch(asker)
 			env.bcR.Receive(BlockchainChannel, asker, c17BcWrap(&bcproto.StatusRequest{}))
@@ -840,16 +851,11 @@ func c17BcExec(in c17Input, rec *c17Rec) {
 					break
 				}
 			}
-			honest := c17NewPeer(4, true)
-			reqs := make(chan int64, 1024)
-			honest.onSend = func(e p2p.Envelope) {
-				if rq, ok := e.Message.(*bcproto.BlockRequest); ok {
-					select {
-					case reqs <- rq.Height:
-					default:
-					}
-				}
+			type blockReq struct {
+				p *c17Peer
+				h int64
 			}
+			reqs := make(chan blockReq, 1024)
 			stopServe := make(chan struct{})
 			defer close(stopServe)
 			env.bg.Go("harness: honest block server", func() {
@@ -857,30 +863,50 @@ func c17BcExec(in c17Input, rec *c17Rec) {
 					select {
 					case <-stopServe:
 						return
-					case h := <-reqs:
-						if h >= 1 && h <= c17BcSrcN {
-							env.bcR.Receive(BlockchainChannel, honest, c17BcBlockMsg(c17BcBlock(h)))
+					case rq := <-reqs:
+						if !rq.p.IsRunning() {
+							continue
+						}
+						if rq.h >= 1 && rq.h <= c17BcSrcN {
+							env.bcR.Receive(BlockchainChannel, rq.p, c17BcBlockMsg(c17BcBlock(rq.h)))
 						} else {
-							env.bcR.Receive(BlockchainChannel, honest, c17BcWrap(&bcproto.NoBlockResponse{Height: h}))
+							env.bcR.Receive(BlockchainChannel, rq.p, c17BcWrap(&bcproto.NoBlockResponse{Height: rq.h}))
 						}
 					}
 				}
 			})
 			h1 := env.node.store.Height()
-			env.toSwitch(honest)
-			env.bcR.Receive(BlockchainChannel, honest, c17BcWrap(&bcproto.StatusResponse{Base: 1, Height: c17BcSrcN}))
 			target := h1 + 2
 			if target > c17BcSrcN-1 {
 				target = c17BcSrcN - 1
 			}
-			for dl := time.Now().Add(4 * time.Second); time.Now().Before(dl); time.Sleep(2 * time.Millisecond) {
-				if env.node.store.Height() >= target {
-					alive = true
-					return
+			// an honest peer that is dropped (it can be: see the RedoRequest remark above) reconnects,
+			// as a real peer would
+			for conn := 0; conn < 3; conn++ {
+				honest := c17NewPeer(byte(40+conn), true)
+				honest.onSend = func(e p2p.Envelope) {
+					if rq, ok := e.Message.(*bcproto.BlockRequest); ok {
+						select {
+						case reqs <- blockReq{honest, rq.Height}:
+						default:
+						}
+					}
 				}
+				env.toSwitch(honest)
+				env.bcR.Receive(BlockchainChannel, honest, c17BcWrap(&bcproto.StatusResponse{Base: 1, Height: c17BcSrcN}))
+				for dl := time.Now().Add(4 * time.Second); time.Now().Before(dl) && honest.IsRunning(); time.Sleep(2 * time.Millisecond) {
+					if env.node.store.Height() >= target {
+						alive = true
+						return
+					}
+				}
+				if honest.IsRunning() {
+					break
+				}
+				rec.Note += fmt.Sprintf(" probe: honest peer connection %d was stopped by the node", conn)
 			}
-			rec.Note += fmt.Sprintf(" probe: no progress, store height %d (wanted %d), honest running=%v, pool running=%v",
-				env.node.store.Height(), target, honest.IsRunning(), env.bcR.pool.IsRunning())
+			rec.Note += fmt.Sprintf(" probe: no progress, store height %d (wanted %d), pool running=%v",
+				env.node.store.Height(), target, env.bcR.pool.IsRunning())
 		})
 		if !ok {
 			rec.Note += " probe: timed out"
